@@ -51,13 +51,12 @@ Proved:
   sender's message; no message changes (`BC.step_recv`, `Lemmas/BroadcastRecv.lean`: the per-sender `dictSet`s are the
   per-receiver `filterMap`).
 
-NOT proved (statement kept here; the judge evaluates it at run time on every trace of the correspondence stream):
-
-* `broadcast_hist` — `∀ cfg w0 ops, bcPre cfg w0 ops = true →
-     specBC cfg w0 (zipOps ops (runOps cfg (init w0) ops).1) = true`.  Missing: only the assembly over the six kinds of
-  call (every clause of `judge1`, full delivery included, is one of the theorems of this file; the `step` entry is
-  assembled: `broadcast_hist_step_partial`).  The driver evaluates `specBC` on the model's own
-  exact run of every request (reply field `specOnModel`): a `0` there is reported as a broken obligation.
+* **the model's trace passes the judge** `broadcast_hist` (`Props/BroadcastHist.lean`) — `∀ cfg w0 ops, bcPre cfg w0 ops = true →
+     specBC cfg w0 (zipOps ops (runOps cfg (init w0) ops).1) = true` (and from any initial tape: `broadcast_hist_tape`):
+  every clause of `judge1` for the six kinds of call (`BC.judge1_reset`, `BC.judge1_step'`, `BC.judge1_obs`,
+  `BC.judge1_rew`, `BC.judge1_done`, `BC.judge1_allDone`), `cfgHypb` carried along the frame (`BC.cfgHypb_frame`),
+  induction over the history (`BC.specFrom_model`).  The driver still evaluates `specBC` on the model's own exact run of
+  every request (reply field `specOnModel`); by the theorem a `0` there can only come from a request outside `bcPre`.
 -/
 namespace Abmarl
 open World
